@@ -193,35 +193,39 @@ def run(ck: Checker):
                  construct=f'{h.node.name} arity for {tname}')
     ck.floor('C11.HANDLER', 18)
 
-    # ---- PRINT ----
-    cm = repo.mod(CIRCUIT)
-    fc = cm.func('Circuit.format_circuit')
-    src = norm(fc)
-    ok = "'\\n'.join((f'INPUT({input_label})' for input_label in self._inputs))" in src and "'\\n'.join((f'OUTPUT({output_label})' for output_label in self._outputs))" in src \
-        and "'\\n'.join((_gate.format_gate() for _gate in self._gates.values() if _gate.gate_type != gate.INPUT))" in src and "return f'{input_str}\\n\\n{gates_str}\\n\\n{output_str}'" in src
-    ck.check(ok, 'C11.PRINT', cm, fc, 'the text lists inputs in input order, every non-input gate once, outputs in output order (duplicates kept), one per line',
-             'format_circuit changed shape', construct='format_circuit body')
-    sf = cm.func('Circuit.save_to_file')
-    ck.check('p.write_text(self.format_circuit())' in norm(sf), 'C11.PRINT', cm, sf, 'the saved file is exactly the formatted text', 'save_to_file does not write format_circuit()', construct='save_to_file body')
-    for name in ('from_bench_file', 'from_bench_string'):
-        f = cm.func(f'Circuit.{name}')
-        s = norm(f)
-        ck.check('_parser = BenchToCircuit()' in s and 'return _parser.convert_to_circuit(' in s, 'C11.PRINT', cm, f, f'{name} reads through a fresh BenchToCircuit', 'shape changed', construct=f'{name} body')
-    ab = repo.mod(ABSTRACT)
-    cv = ab.func('AbstractParser.convert')
-    loops = [n for n in ast.walk(cv) if isinstance(n, ast.For)]
-    ok = len(loops) == 1 and norm(loops[0].iter) == cv.args.args[1].arg and [norm(s) for s in loops[0].body] == [f'yield from self._process_line({norm(loops[0].target)})'] \
-        and any(norm(s) == 'yield from self._eof()' for s in cv.body if s.lineno > loops[0].lineno)
-    ck.check(ok, 'C11.PRINT', ab, cv, 'every line of the stream is processed in order, then the end-of-file check runs', 'convert changed shape', construct='AbstractParser.convert')
-    ctc = mod.func('BenchToCircuit.convert_to_circuit')
-    ck.check('for _ in self.convert(' in norm(ctc) and norm(ctc.body[-1]) == 'return self._circuit', 'C11.PRINT', mod, ctc, 'the lazy parse is fully consumed before the circuit is returned', 'shape changed', construct='convert_to_circuit')
-    eof = mod.func('BenchToCircuit._eof')
-    ck.check('for gate in self._circuit.gates.values(): check_gates_exist(gate.operands, self._circuit)' in norm(eof).replace('\n', ' ').replace('    ', ''), 'C11.PRINT', mod, eof,
-             'operands are checked once all lines were read (use before definition is legal)', 'end-of-file operand check missing', construct='_eof operand check')
-    ag = mod.func('BenchToCircuit._add_gate')
-    calls = [c for c in calls_in(ag, '_emplace_gate')]
-    ok = len(calls) == 1 and {k.arg: norm(k.value) for k in calls[0].keywords} == {'label': ag.args.args[1].arg, 'gate_type': ag.args.args[2].arg, 'operands': f'(*{ag.args.vararg.arg},)'}
-    ck.check(ok, 'C11.PRINT', mod, ag, 'gates are created through the unchecked constructor with operands in the order read', f'`{norm(calls[0]) if calls else None}`', construct='BenchToCircuit._add_gate')
-    ck.floor('C11.PRINT', 8)
+    ck.rule('C11.RT', 'format_circuit then from_bench_string folded on model circuits built from the repository\'s own Gate and Circuit classes (all gate types, n-ary gates, constants with operands, repeated and input outputs, users-first storage, unusual labels): the circuit read back has the same inputs and outputs in order and the same gates, and is well formed')
+    from .. import eval_fold
+    eval_fold.fold_bench_round_trip(ck, 'C11.RT')
+    with ck.soft('C11.RT (printer and reader folded as a round trip)'):
+        # ---- PRINT ----
+        cm = repo.mod(CIRCUIT)
+        fc = cm.func('Circuit.format_circuit')
+        src = norm(fc)
+        ok = "'\\n'.join((f'INPUT({input_label})' for input_label in self._inputs))" in src and "'\\n'.join((f'OUTPUT({output_label})' for output_label in self._outputs))" in src \
+            and "'\\n'.join((_gate.format_gate() for _gate in self._gates.values() if _gate.gate_type != gate.INPUT))" in src and "return f'{input_str}\\n\\n{gates_str}\\n\\n{output_str}'" in src
+        ck.check(ok, 'C11.PRINT', cm, fc, 'the text lists inputs in input order, every non-input gate once, outputs in output order (duplicates kept), one per line',
+                 'format_circuit changed shape', construct='format_circuit body')
+        sf = cm.func('Circuit.save_to_file')
+        ck.check('p.write_text(self.format_circuit())' in norm(sf), 'C11.PRINT', cm, sf, 'the saved file is exactly the formatted text', 'save_to_file does not write format_circuit()', construct='save_to_file body')
+        for name in ('from_bench_file', 'from_bench_string'):
+            f = cm.func(f'Circuit.{name}')
+            s = norm(f)
+            ck.check('_parser = BenchToCircuit()' in s and 'return _parser.convert_to_circuit(' in s, 'C11.PRINT', cm, f, f'{name} reads through a fresh BenchToCircuit', 'shape changed', construct=f'{name} body')
+        ab = repo.mod(ABSTRACT)
+        cv = ab.func('AbstractParser.convert')
+        loops = [n for n in ast.walk(cv) if isinstance(n, ast.For)]
+        ok = len(loops) == 1 and norm(loops[0].iter) == cv.args.args[1].arg and [norm(s) for s in loops[0].body] == [f'yield from self._process_line({norm(loops[0].target)})'] \
+            and any(norm(s) == 'yield from self._eof()' for s in cv.body if s.lineno > loops[0].lineno)
+        ck.check(ok, 'C11.PRINT', ab, cv, 'every line of the stream is processed in order, then the end-of-file check runs', 'convert changed shape', construct='AbstractParser.convert')
+        ctc = mod.func('BenchToCircuit.convert_to_circuit')
+        ck.check('for _ in self.convert(' in norm(ctc) and norm(ctc.body[-1]) == 'return self._circuit', 'C11.PRINT', mod, ctc, 'the lazy parse is fully consumed before the circuit is returned', 'shape changed', construct='convert_to_circuit')
+        eof = mod.func('BenchToCircuit._eof')
+        ck.check('for gate in self._circuit.gates.values(): check_gates_exist(gate.operands, self._circuit)' in norm(eof).replace('\n', ' ').replace('    ', ''), 'C11.PRINT', mod, eof,
+                 'operands are checked once all lines were read (use before definition is legal)', 'end-of-file operand check missing', construct='_eof operand check')
+        ag = mod.func('BenchToCircuit._add_gate')
+        calls = [c for c in calls_in(ag, '_emplace_gate')]
+        ok = len(calls) == 1 and {k.arg: norm(k.value) for k in calls[0].keywords} == {'label': ag.args.args[1].arg, 'gate_type': ag.args.args[2].arg, 'operands': f'(*{ag.args.vararg.arg},)'}
+        ck.check(ok, 'C11.PRINT', mod, ag, 'gates are created through the unchecked constructor with operands in the order read', f'`{norm(calls[0]) if calls else None}`', construct='BenchToCircuit._add_gate')
+        ck.floor('C11.PRINT', 8)
     ck.assume('labels are bench identifiers: no space, bracket, comma, `=`, `#` or newline; layouts outside the enumerated line forms (leading blanks, `INPUT (x)`, CRLF) are not decided')
     ck.assume('Circuit._emplace_gate keeps the users index (C02.IDX) -- modelled by rewrites.FakeCircuit._emplace_gate')
